@@ -7,6 +7,7 @@
 
 #include <cstdint>
 #include <cstdlib>
+#include <cstring>
 #include <map>
 #include <string>
 
@@ -310,16 +311,106 @@ struct Asg
 static_assert(std::is_trivially_copy_constructible_v<Asg> && std::is_trivially_move_constructible_v<Asg> &&
               std::is_trivially_destructible_v<Asg> && !std::is_trivially_copyable_v<Asg>);
 
+// an over-aligned trivially copyable class: 32 bytes, alignas(32); the seven pad words repeat the value so that a
+// partially copied or shifted object is recognisable
+struct alignas(32) Big32
+{
+    int32_t v;
+    int32_t pad[7];
+    friend bool operator==(const Big32& a, const Big32& b) { return a.v == b.v; }
+    friend bool operator<(const Big32& a, const Big32& b) { return a.v < b.v; }
+};
+static_assert(sizeof(Big32) == 32 && alignof(Big32) == 32 && std::is_trivially_copyable_v<Big32>);
+// an empty class (size 1, no state)
+struct Emp
+{
+    friend bool operator==(const Emp&, const Emp&) { return true; }
+    friend bool operator<(const Emp&, const Emp&) { return false; }
+};
+enum class En : u16
+{
+};
+// a pointer into a static table (its bytes are an absolute address)
+using Ptr = const int*;
+inline const int* ptr_table()
+{
+    static const int table[256] = {};
+    return table;
+}
+
+// VT<T>::norm(x): the value read back from make(x) - the identity unless the type has fewer states than the model
 template <class T, class = void>
 struct VT
 {
     static T make(int x) { return static_cast<T>(x); }
     static int read(const T& v) { return static_cast<int>(v); }
+    static int norm(int x) { return x; }
+    static constexpr bool tracked = false;
+};
+template <>
+struct VT<Big32>
+{
+    static Big32 make(int x)
+    {
+        Big32 b;
+        b.v = x;
+        for (int i = 0; i < 7; ++i) b.pad[i] = x ^ (0x1010101 * (i + 1));
+        return b;
+    }
+    static int read(const Big32& b)
+    {
+        for (int i = 0; i < 7; ++i)
+            if (b.pad[i] != (b.v ^ (0x1010101 * (i + 1)))) return -6;
+        return b.v;
+    }
+    static int norm(int x) { return x; }
+    static constexpr bool tracked = false;
+};
+template <>
+struct VT<Emp>
+{
+    static Emp make(int) { return Emp{}; }
+    static int read(const Emp&) { return 0; }
+    static int norm(int) { return 0; }
+    static constexpr bool tracked = false;
+};
+template <>
+struct VT<bool>
+{
+    static bool make(int x) { return (x & 1) != 0; }
+    static int read(const bool& v)
+    {
+        unsigned char raw;
+        std::memcpy(&raw, &v, 1);
+        return raw > 1 ? -7 : raw;  // a bool whose byte is neither 0 nor 1 was produced by a byte copy of something else
+    }
+    static int norm(int x) { return x & 1; }
+    static constexpr bool tracked = false;
+};
+template <>
+struct VT<En>
+{
+    static En make(int x) { return static_cast<En>(x); }
+    static int read(const En& v) { return static_cast<int>(v); }
+    static int norm(int x) { return x; }
+    static constexpr bool tracked = false;
+};
+template <>
+struct VT<Ptr>
+{
+    static Ptr make(int x) { return ptr_table() + (x & 255); }
+    static int read(const Ptr& v)
+    {
+        const auto d = v - ptr_table();
+        return (v == nullptr || d < 0 || d > 255) ? -5 : static_cast<int>(d);
+    }
+    static int norm(int x) { return x & 255; }
     static constexpr bool tracked = false;
 };
 template <>
 struct VT<Odd3>
 {
+    static int norm(int x) { return x; }
     static Odd3 make(int x) { return Odd3{static_cast<u8>(x), static_cast<u8>(x ^ 0x55), static_cast<u8>(~x)}; }
     static int read(const Odd3& v)
     {
@@ -331,6 +422,7 @@ struct VT<Odd3>
 template <>
 struct VT<W8>
 {
+    static int norm(int x) { return x; }
     static W8 make(int x) { return W8{static_cast<u8>(x)}; }
     static int read(const W8& v) { return v.v; }
     static constexpr bool tracked = false;
@@ -341,6 +433,7 @@ using Str = std::string;
 template <>
 struct VT<Str>
 {
+    static int norm(int x) { return x; }
     static Str make(int x) { return "s" + std::to_string(x); }
     static int read(const Str& v)
     {
@@ -352,6 +445,7 @@ struct VT<Str>
 template <>
 struct VT<Asg>
 {
+    static int norm(int x) { return x; }
     static Asg make(int x) { return Asg(x); }
     static int read(const Asg& v) { return v.val; }
     static constexpr bool tracked = false;
@@ -359,6 +453,7 @@ struct VT<Asg>
 template <>
 struct VT<Cpy>
 {
+    static int norm(int x) { return x; }
     static Cpy make(int x) { return Cpy(x); }
     static int read(const Cpy& v) { return v.val; }
     static constexpr bool tracked = false;
@@ -366,6 +461,7 @@ struct VT<Cpy>
 template <class T>
 struct VT<T, std::enable_if_t<IS_TRACKED<T>>>
 {
+    static int norm(int x) { return x; }
     static T make(int x) { return T(x); }
     static int read(const T& v)
     {
